@@ -52,6 +52,14 @@ def _queries(m, query, ox=0.0, oy=0.0):
         if query == 'vec2':
             return [('vec2', PixCoord(np.array(xs, dtype=dt), np.array(ys, dtype=dt)), list(zip(xs, ys)))]
         return [('mat12', PixCoord(np.array([xs], dtype=dt), np.array([ys], dtype=dt)), list(zip(xs, ys)))]
+    if query == 'mat22F':
+        # a 2x2 query that is NOT C-contiguous (transposed view)
+        xs = [X('px0'), X('px1'), X('px2'), X('px3')]
+        ys = [Y('py0'), Y('py1'), Y('py2'), Y('py3')]
+        ax = np.array(xs, dtype=dt).reshape(2, 2).T
+        ay = np.array(ys, dtype=dt).reshape(2, 2).T
+        pts = [(ax[i, j], ay[i, j]) for i in range(2) for j in range(2)]
+        return [('mat22F', PixCoord(ax, ay), pts)]
     if query == 'empty':
         return [('empty', PixCoord(np.zeros(0), np.zeros(0)), [])]
     if query == 'intscalar':
@@ -60,7 +68,7 @@ def _queries(m, query, ox=0.0, oy=0.0):
     raise ValueError(query)
 
 
-_SHAPES = {'scalar': (), 'vec2': (2,), 'mat12': (1, 2), 'empty': (0,), 'intscalar': ()}
+_SHAPES = {'scalar': (), 'vec2': (2,), 'mat12': (1, 2), 'mat22F': (2, 2), 'empty': (0,), 'intscalar': ()}
 
 
 def _check_shape(m, tag, res, pts, query):
@@ -345,6 +353,10 @@ def harnesses(tier):
         for iname, inc in (INCLUDES if n <= 4 else INCLUDES[:1] + INCLUDES[2:3]):
             for qy in (['scalar', 'vec2', 'empty'] if n <= 4 else ['scalar']):
                 hs.append((f'polygon/n={n}/include={iname}/query={qy}', P(h_polygon, inc, qy, n)))
+    for iname, inc in INCLUDES[:1] + INCLUDES[2:3]:
+        hs.append((f'polygon/n=3/include={iname}/query=mat22F', P(h_polygon, inc, 'mat22F', 3)))
+        hs.append((f'circle/include={iname}/query=mat22F', P(h_circle, inc, 'mat22F')))
+        hs.append((f'rectangle/include={iname}/query=mat22F/angle=deg', P(h_rect, inc, 'mat22F', 'deg')))
     for n in ([3, 4] if q else [3, 4, 6, 8, 12]):
         for iname, inc in INCLUDES[:1] + INCLUDES[2:3]:
             for au in (['deg'] if q else ['default', 'deg', 'rad']):
